@@ -195,6 +195,6 @@ def e_tone(c):
 
 
 PARTS = [
-    Part("linear", e_lin, s_lin(), quick=700, thorough=4000, shards=8, rule="linearity, identical action on signal/noise/polarisations, constants, containers, fs argument"),
-    Part("tones", e_tone, s_tone(), quick=400, thorough=2500, shards=8, quick_shards=2, rule="tone gains, cutoff attenuation, monotone ladder, zero delay, retH"),
+    Part("linear", e_lin, s_lin(), quick=700, thorough=20000, shards=8, rule="linearity, identical action on signal/noise/polarisations, constants, containers, fs argument"),
+    Part("tones", e_tone, s_tone(), quick=400, thorough=12500, shards=8, quick_shards=2, rule="tone gains, cutoff attenuation, monotone ladder, zero delay, retH"),
 ]
